@@ -24,6 +24,10 @@ def run(ctx, rep):
     rep.rule("L6", "the single-dataset entry point is the sequence routine on a one-element sequence: every argument is handed on as "
                    "received (no renormalisation, filtering or re-binding of the data on the way)", floor=1)
     check_single_is_sequence_of_one(ctx, rep, "L6", E + "linear_estimator.LinearEstimator")
+    rep.rule("L7", "the A and b the estimator inverts are the freshly stacked coefficient dictionaries of the tomography (calc_matA / "
+                   "calc_vecB build their result on every call, in sorted key order; no cached array that another method could update)", floor=2)
+    from .c08 import check_model_accessors
+    check_model_accessors(ctx, rep, "L7")
     f = ix.func(E + "linear_estimator.LinearEstimator.calc_estimate_sequence")
     loops = [n for n in own_nodes(f.node) if isinstance(n, ast.For) and unparse(n.iter) == "empi_dists_sequence"]
     if len(loops) != 1:
